@@ -1,5 +1,6 @@
 #![allow(dead_code)]
 mod adapters;
+mod coracle;
 mod corpus;
 mod emitrun;
 mod eoracle;
@@ -22,6 +23,7 @@ fn main() {
         "hir" => hirobs::cmd_hir(&args),
         "emit" => emitrun::cmd_emit(&args),
         "emit-canon" => emitrun::cmd_emit_canon(&args),
+        "emit-crates" => emitrun::cmd_emit_crates(&args),
         "adapters-gen" => adapters::cmd_gen(&args),
         "adapters-impl" => adapters::cmd_impl(&args),
         "adapters-canon" => adapters::cmd_canon(&args),
